@@ -9,6 +9,7 @@ CONSTANTS
   MaxOps = 4
   Faults = {"reorg"}
   AllowGap = FALSE
+  Dups = FALSE
   AllowRestart = FALSE
   AllowReorg = TRUE
   Rollups = {1, 2}
